@@ -88,6 +88,12 @@ def exec_case(ctx, r):
     except CaseTimeout:
         ctx.stat("case_timeouts")
         return
+    except RuntimeError as ex:
+        if "GaussianCovCost" in short(spec) and "positive definite" in str(ex):
+            ctx.stat("documented_runtimeerror")  # permitted outcome for a singular slice covariance
+            return
+        ctx.violation(sub, "exception", f"{label}: {type(ex).__name__}: {ex}", r)
+        return
     except Exception as ex:
         ctx.violation(sub, "exception", f"{label}: {type(ex).__name__}: {ex}", r)
         return
